@@ -71,9 +71,9 @@ V_CONTRACT
 ssize_t m_mod_unstash(m_mod_t *mod, size_t len)
 V_REQUIRES(V_MODREQ(mod) && (mod == NULL || g_stashq->len < ((size_t)1 << 58)))
 V_REQUIRES(g_S0 == g_stashq->len && g_enq0 == g.enq_calls && g_ref0 == g.ref_calls && g_rm0 == g.itr_rm_calls && g_get0 == g.itr_get_calls && g_cb0 == g.cb_calls && !g.itr_nonhead)
-V_ASSIGNS(V_G_RUNNING(mod) && len > 0 && g_mod->tb.tokens > 0: g, g_mod->tb.tokens, g_mod->stats.last_seen, g_mod->stats.action_ctr, g_stashq->len, g_stashq->first, g_stashq->last,
+V_ASSIGNS(V_G_RUNNING(mod) && len > 0 && g_mod->tb.tokens > 0: g.fetch_calls, g.qnew_calls, g.qnew_ret, g.enq_calls, g.enq_arg, g.enq_q, g.ref_calls, g.ref_arg, g.itr_rm_calls, g.itr_get_calls, g.itr_nonhead, g.itr_elem,
+          g.cb_calls, g.cb_mod, g.cb_q, g.cb_qlen, g_mod->tb.tokens, g_mod->stats.last_seen, g_mod->stats.action_ctr, g_stashq->len, g_stashq->first, g_stashq->last,
           g_free_calls, g_free_arg, g_free_arg0, g_qit->q, g_qit->idx, g_qit->removed)
-V_FREES(g_qit)
 V_ENSURES(V_IMP(!V_G_UNSTASH(mod, len), V_RET < 0))                                                                                          /*@C16.unstash-only-for-running-module*/
 V_ENSURES(V_IMP(V_G_RUNNING(mod) && len > 0 && V_OLD(g_mod->tb.tokens) == 0, V_RET == -EAGAIN))                                               /*@C18.no-token-means-eagain*/
 /* exactly min(n, number stashed) events are handed over, and that number is returned */
